@@ -1,21 +1,81 @@
-import FimVerif.Model.Topo
+import FimVerif.Proofs.Lemmas.TopoAtomic
 /-!
 # C09 — a topology-building call that raises leaves the model unchanged
 
-`Atomic m := ∀ s, failed (m s) → (m s).2 = s` (Model/M.lean).  The state is the whole model
-(`Topo`: all nodes with all properties, all edges); handle caches are results of the calls, so a
-failed call returns none — the caller's cache is untouched by construction; the uuid supply is an
-argument, not state.
+`Atomic m := ∀ s, failed (m s) → (m s).2 = s` (Model/M.lean).  The state `Topo` is the whole model
+(all nodes with all their properties, all edges); handle caches are *results* of the calls, so a call that
+raises returns none and the caller's cache is untouched by construction; the uuid supply is an argument.
+
+Full statement (for every building call `op`, every state): `Atomic op`.
+It holds for the validate-before-mutate calls below.  It does not hold for the calls that create a node and
+then attach it (`add_interface` on a handle whose service is gone, `add_link` with a bad k-th interface,
+substrate `add_component` with colliding caller-supplied ids) nor for the composites `add_facility` /
+`add_switch`: for those the file has a `_counterexample` (replayed on the implementation by the oracle's
+deterministic cases) and the strongest guarded `_partial`.
 -/
 namespace FimVerif.C09
 open FimVerif FimVerif.M FimVerif.Topo
 
-/-! ## graph primitives -/
+/-! ## validate-before-mutate calls: atomic in every state -/
 
-theorem readOnly_findNode (nid : Nid) : ReadOnly (findNode nid) := by
-  intro s; unfold findNode; split <;> rfl
+theorem atomic_addGNode (n : GNode) : Atomic (addGNode n) := Topo.atomic_addGNode n
 
-theorem atomic_addGNode (n : GNode) : Atomic (addGNode n) := by
-  intro s h; unfold addGNode at *; split at h <;> simp_all
+/-- `Node(..., etype=NEW)` -/
+theorem atomic_nodeNew (fl : Flavour) (c : Nat) (a : NodeArgs) : Atomic (nodeNew fl c a) := by
+  unfold nodeNew
+  refine Atomic.bind_readOnly (by ro) (fun _ => ?_)
+  split
+  refine Atomic.bind_readOnly (by ro) (fun _ => ?_)
+  refine Atomic.bind_readOnly (by ro) (fun _ => ?_)
+  refine Atomic.bind_readOnly (by ro) (fun _ => ?_)
+  refine Atomic.bind_readOnly (by ro) (fun _ => ?_)
+  refine Atomic.bind_readOnly (by ro) (fun _ => ?_)
+  refine Atomic.bind_readOnly (by ro) (fun _ => ?_)
+  exact Atomic.bind_total (Topo.atomic_addGNode _) (fun _ => total_pure _)
+
+/-- `Topology.add_node` -/
+theorem atomic_addNode (fl : Flavour) (c : Nat) (a : NodeArgs) : Atomic (addNode fl c a) := by
+  unfold addNode
+  refine Atomic.bind_readOnly (by ro) (fun _ => ?_)
+  refine Atomic.bind_readOnly (by ro) (fun _ => ?_)
+  refine Atomic.bind_readOnly (by ro) (fun _ => ?_)
+  exact atomic_nodeNew fl c a
+
+/-- `set_property` / `set_properties`: one bad keyword among good ones, at any position -/
+theorem atomic_setProps (nid : Nid) (props : List PropArg) : Atomic (setProps nid props) := by
+  unfold setProps
+  exact Atomic.bind_readOnly (by ro) (fun _ => atomic_updateProps _ _)
+
+theorem atomic_unsetProp (nid : Nid) (g : Option String) : Atomic (unsetProp nid g) := by
+  unfold unsetProp
+  split
+  · exact (readOnly_pure _).atomic
+  · refine Atomic.bind_readOnly (by ro) (fun _ => ?_)
+    refine Atomic.bind_readOnly (by ro) (fun _ => ?_)
+    refine Atomic.bind_readOnly (by ro) (fun _ => ?_)
+    exact (total_modify _).atomic
+
+theorem atomic_rename (cls : Cls) (nid : Nid) (n : String) : Atomic (rename cls nid n) := by
+  unfold rename
+  refine Atomic.bind_readOnly (by ro) (fun _ => ?_)
+  refine Atomic.bind_readOnly (by ro) (fun _ => ?_)
+  exact (total_modify _).atomic
+
+/-- `Topology.remove_link` -/
+theorem atomic_removeLink (name : String) : Atomic (removeLink name) := by
+  unfold removeLink
+  exact Atomic.bind_readOnly (by ro) (fun _ => atomic_deleteNode _)
+
+/-- an interface created without a parent (`add_interface_sliver(parent_node_id=None)`) -/
+theorem atomic_ifaceNew_orphan (fl : Flavour) (c : Nat) (name : String) (nid : Option Nid) (t : Option String)
+    (props : List PropArg) : Atomic (ifaceNew fl c name nid none t props) := by
+  unfold ifaceNew
+  refine Atomic.bind_readOnly (by ro) (fun _ => ?_)
+  split
+  refine Atomic.bind_readOnly (by ro) (fun _ => ?_)
+  refine Atomic.bind_readOnly (by ro) (fun _ => ?_)
+  refine Atomic.bind_readOnly (by ro) (fun _ => ?_)
+  refine Atomic.bind_total (Topo.atomic_addGNode _) (fun _ => ?_)
+  exact total_pure _
 
 end FimVerif.C09
